@@ -32,6 +32,7 @@ type caseCfg struct {
 	proto          string // tcp | unix | udp
 	reuseport      bool
 	udp            bool
+	udpFam         string // v4 | dual | v6: address family of the UDP listener
 	sndbuf         int
 	wbufcap        int // WithWriteBufferCap (0 = default)
 	pClose         int // per mille
@@ -260,6 +261,20 @@ func (nopLogger) Warnf(string, ...any)  {}
 func (nopLogger) Errorf(string, ...any) {}
 func (nopLogger) Fatalf(string, ...any) {}
 
+var ipv6Probe = -1
+
+// haveIPv6: the sandbox has a usable ::1
+func haveIPv6() bool {
+	if ipv6Probe < 0 {
+		ipv6Probe = 0
+		if c, err := net.ListenUDP("udp6", &net.UDPAddr{IP: net.IPv6loopback}); err == nil {
+			c.Close()
+			ipv6Probe = 1
+		}
+	}
+	return ipv6Probe == 1
+}
+
 func freePort() int {
 	l, err := net.Listen("tcp", "127.0.0.1:0")
 	if err != nil {
@@ -285,6 +300,10 @@ func runCase(w *tr.Writer, seed uint64, idx int, focus string) {
 	cfg := genCfg(rnd, focus)
 	if focus == "udp" {
 		cfg.proto, cfg.udp, cfg.reuseport = "udp", true, true
+		cfg.udpFam = rnd.PickS([]string{"v4", "v4", "v4", "dual", "dual", "v6"})
+		if cfg.udpFam != "v4" && !haveIPv6() {
+			cfg.udpFam = "v4"
+		}
 	}
 	rec := newRecorder()
 	rec.injects = cfg.inject
@@ -305,6 +324,12 @@ func runCase(w *tr.Writer, seed uint64, idx int, focus string) {
 	case "udp":
 		port := freePort()
 		addr, dialNet, dialAddr = fmt.Sprintf("udp://127.0.0.1:%d", port), "udp", fmt.Sprintf("127.0.0.1:%d", port)
+		switch cfg.udpFam {
+		case "dual": // wildcard listener on an AF_INET6 socket: IPv4 senders arrive as v4-mapped addresses
+			addr = fmt.Sprintf("udp://:%d", port)
+		case "v6":
+			addr, dialAddr = fmt.Sprintf("udp://[::1]:%d", port), fmt.Sprintf("[::1]:%d", port)
+		}
 	default:
 		port := freePort()
 		addr, dialNet, dialAddr = fmt.Sprintf("tcp://127.0.0.1:%d", port), "tcp", fmt.Sprintf("127.0.0.1:%d", port)
@@ -348,6 +373,10 @@ func runCase(w *tr.Writer, seed uint64, idx int, focus string) {
 			defer srvLn.Close()
 		}
 		if srvUDP != nil {
+			if t, err := net.ListenUDP("udp", &net.UDPAddr{IP: net.IPv4(127, 0, 0, 1)}); err == nil {
+				h.third = t
+				defer t.Close()
+			}
 			defer srvUDP.Close()
 		}
 		cli, err = gnet.NewClient(h, opts...)
@@ -476,6 +505,7 @@ func runCase(w *tr.Writer, seed uint64, idx int, focus string) {
 		return 8 * time.Millisecond
 	}
 	stopped := false
+	sharedPort := rnd.Chance(50)
 	engineDown = func() bool {
 		select {
 		case err := <-done:
@@ -703,9 +733,23 @@ func runCase(w *tr.Writer, seed uint64, idx int, focus string) {
 				// senders live on other loopback addresses than the listener (127.0.0.1), so a reply that
 				// is addressed wrongly cannot reach them by accident
 				ra, _ := net.ResolveUDPAddr("udp", dialAddr)
-				c, err := net.DialUDP("udp", &net.UDPAddr{IP: net.IPv4(127, 0, 0, byte(2+len(peers)%3))}, ra)
+				la := &net.UDPAddr{IP: net.IPv4(127, 0, 0, byte(2+len(peers)%3))}
+				if cfg.udpFam == "v6" {
+					la = &net.UDPAddr{IP: net.IPv6loopback}
+				} else if len(peers) > 0 && len(peers) < 3 && sharedPort {
+					// several senders with the SAME source port on different addresses
+					la.Port = peers[0].conn.LocalAddr().(*net.UDPAddr).Port
+				}
+				c, err := net.DialUDP("udp", la, ra)
+				if err != nil && la.Port != 0 {
+					la.Port = 0
+					c, err = net.DialUDP("udp", la, ra)
+				}
 				if err != nil {
 					continue
+				}
+				if la.Port != 0 {
+					w.Hist("udp-sender-same-port")
 				}
 				np := &peer{conn: c, cid: -1}
 				peers = append(peers, np)
@@ -1058,6 +1102,28 @@ func runCase(w *tr.Writer, seed uint64, idx int, focus string) {
 		_ = ci.c.AsyncWrite([]byte("late"), nil)
 	}
 	finalOracles(rec, h, cfg, peers)
+	if h.third != nil {
+		// every datagram SendTo addressed to the third party arrived there (and nowhere else)
+		got := map[string]int{}
+		buf := make([]byte, 2048)
+		for {
+			h.third.SetReadDeadline(time.Now().Add(20 * time.Millisecond))
+			n, _, err := h.third.ReadFromUDP(buf)
+			if err != nil {
+				break
+			}
+			got[string(buf[:n])]++
+		}
+		h.mu.Lock()
+		for _, d := range h.thirdExp {
+			if got[string(d)] == 0 {
+				rec.Fail("udp-reply", "sendto-on-connected-socket", fmt.Sprintf("a %d-byte datagram SendTo addressed to %s did not arrive there", len(d), h.third.LocalAddr()))
+				break
+			}
+			got[string(d)]--
+		}
+		h.mu.Unlock()
+	}
 	if unixPath != "" && !cfg.client {
 		// C07: the file of a Unix-domain listener is removed by the time Run returns
 		if _, err := os.Lstat(unixPath); err == nil {
